@@ -290,6 +290,10 @@ class BaseInterpolatablePreProcessor:
             _GlyphSet.from_layer(ufo, layerName, copy=not inplace)
             for ufo, layerName in zip_strict(ufos, layerNames)
         ]
+        if not inplace:
+            # the filters must work on the copies, also when they reach glyphs
+            # through the instantiator's source layers
+            self._update_instantiator()
         if skipExportGlyphs:
             from ufo2ft.filters.skipExportGlyphs import SkipExportGlyphsIFilter
 
